@@ -3,16 +3,21 @@
   Status (partial). Every panic site of the modelled stages is an explicit predicate of the model
   (`substPanics`, `globalsPanic`, the `Outcome.panic` results of the external pipeline). Proved:
   substitution never panics on sort-compatible arguments (the only way the translators and
-  simplifiers call it); tau* / mu panic exactly on the `usize` overflow of the global-variable
-  index (known finding); the TPTP printer has no panicking numeral after fix ca17dcd; an
-  external task that passes the applicability checks reaches `unreachable!()` in the assembly
-  for no role (after fix 3401bdf); `external_panic_only_overflow`: the whole external-equivalence
-  pipeline (checks, tau*, placeholders, completion, simplification, outline, assembly) panics only on
-  that overflow - in particular `expect("tau_star did not create a completable theory")` is
-  unreachable (`completion_of_tau_star_exists`). NOT expressible in the model: stack depth, allocation
-  failure, hangs, the pest parser's own behaviour — explored with mutated inputs through every
-  CLI command by the check. Known findings: numerals / arities beyond the integer type panic in
-  the parsers' tree builders; `V18446744073709551615` overflows the global index.
+  simplifiers call it); tau* / mu panic on no program (since fix 1d6d77a the fresh global variables
+  are chosen without index arithmetic that can overflow); the TPTP printer has no panicking numeral
+  after fix ca17dcd; an external task that passes the applicability checks reaches `unreachable!()`
+  in the assembly for no role (after fix 3401bdf); `external_never_panics`: the whole
+  external-equivalence pipeline (checks, tau*, placeholders, completion, simplification, outline,
+  assembly) panics on no task - in particular `expect("tau_star did not create a completable
+  theory")` is unreachable (`completion_of_tau_star_exists`); numerals and arities beyond the
+  integer type are parse errors (fix 515e4a3: `out_of_range_refused`, `accepted_numerals_in_range`);
+  the three `while occupied.contains(..)` searches for a free name (private renaming, propositional
+  renaming, fresh global variables) stop within `|occupied| + 1` candidates at the first free one
+  (`*_search_terminates`, `*_search_first_free`) - the model's fuel is never what ends them.
+  NOT expressible in the model: stack depth, allocation failure (known finding: an output predicate
+  of absurd arity), the pest parser's own behaviour — explored with mutated inputs through every
+  CLI command by the check; a call of the implementation that does not return is the outcome
+  `(hang)` of the correspondence harness and a time-out of the CLI exploration.
 -/
 import AnthemModel.Proofs.SubstBasic
 import AnthemModel.Model.External
@@ -20,6 +25,9 @@ import AnthemModel.Model.TptpFmt
 import AnthemModel.Proofs.PanicFree
 import AnthemModel.Model.AspParse
 import AnthemModel.Model.FolParse
+import AnthemModel.Proofs.RenameFresh
+import AnthemModel.Proofs.PropRename
+import AnthemModel.Proofs.TauStarRules
 namespace Anthem.C16
 
 theorem gterm_substPanics_false (t : GTerm) (v : Var) (s : GTerm) (hc : SortCompatible v s) :
@@ -148,5 +156,105 @@ theorem accepted_numerals_in_range (text : String) (p : Asp.Program) (h : Asp.pa
     split at h
     · rename_i hr; injection h with h; subst h; exact hr
     · cases h
+
+/-! ## the searches for a free name terminate
+
+`while occupied.contains(&candidate(i)) { i += 1 }` occurs three times in the implementation (private
+renaming `q_p, q_p1, ..`, propositional renaming `p_p, p_p1, ..`, fresh global variables `V<k>`). The
+model runs each with fuel `|occupied| + 1`. The theorems say that the fuel is never what stops the
+search: the index returned is free (so the loop of the implementation, which has no fuel, stops there
+too), it is the FIRST free index from the start, and it is at most `start + |occupied|`. -/
+
+theorem findExt_first_free (occ : List Pred) (p : Pred) :
+    ∀ (fuel i j : Nat), i ≤ j → j < findExt occ p fuel i → renamedPred p (renExt j) ∈ occ := by
+  intro fuel
+  induction fuel with
+  | zero => intro i j h1 h2; simp only [findExt] at h2; omega
+  | succ n ih =>
+    intro i j h1 h2
+    simp only [findExt] at h2
+    split at h2
+    · rename_i hm
+      by_cases hij : i = j
+      · subst hij; exact hm
+      · exact ih (i + 1) j (by omega) h2
+    · omega
+
+theorem findExt_le (occ : List Pred) (p : Pred) : ∀ (fuel i : Nat), findExt occ p fuel i ≤ i + fuel := by
+  intro fuel
+  induction fuel with
+  | zero => intro i; simp [findExt]
+  | succ n ih =>
+    intro i
+    simp only [findExt]
+    split
+    · have := ih (i + 1); omega
+    · omega
+
+/-- private renaming: the search stops at a free name ... -/
+theorem private_rename_search_terminates (occ : List Pred) (p : Pred) :
+    renamedPred p (renExt (findExt occ p (occ.length + 1) 0)) ∉ occ :=
+  findExt_spec occ p _ 0 (exists_free occ p)
+
+/-- ... which is the first free one, after at most `|occupied|` occupied candidates -/
+theorem private_rename_search_first_free (occ : List Pred) (p : Pred) :
+    (∀ j, j < findExt occ p (occ.length + 1) 0 → renamedPred p (renExt j) ∈ occ) ∧
+    findExt occ p (occ.length + 1) 0 ≤ occ.length := by
+  refine ⟨fun j hj => findExt_first_free occ p (occ.length + 1) 0 j (Nat.zero_le _) hj, ?_⟩
+  -- were the index |occ| + 1, all of the |occ| + 1 candidates below it would be occupied
+  have hle := findExt_le occ p (occ.length + 1) 0
+  by_cases h : findExt occ p (occ.length + 1) 0 ≤ occ.length
+  · exact h
+  · exfalso
+    obtain ⟨j, _, hj2, hj3⟩ := exists_free occ p
+    exact hj3 (findExt_first_free occ p (occ.length + 1) 0 j (Nat.zero_le _) (by omega))
+
+theorem findPropName_first_free (occ : List String) (s : String) :
+    ∀ (fuel i j : Nat), i ≤ j → j < findPropName occ s fuel i → propName s j ∈ occ := by
+  intro fuel
+  induction fuel with
+  | zero => intro i j h1 h2; simp only [findPropName] at h2; omega
+  | succ n ih =>
+    intro i j h1 h2
+    simp only [findPropName] at h2
+    split at h2
+    · rename_i hm
+      by_cases hij : i = j
+      · subst hij; exact hm
+      · exact ih (i + 1) j (by omega) h2
+    · omega
+
+/-- propositional renaming (`rename_conflicting_symbols`): stops at the first free name -/
+theorem prop_rename_search_terminates (occ : List String) (s : String) :
+    propName s (findPropName occ s (occ.length + 1) 0) ∉ occ ∧
+    ∀ j, j < findPropName occ s (occ.length + 1) 0 → propName s j ∈ occ :=
+  ⟨findPropName_spec occ s _ 0 (exists_free_propName occ s),
+   fun j hj => findPropName_first_free occ s (occ.length + 1) 0 j (Nat.zero_le _) hj⟩
+
+theorem findFreeGlobal_first_free (occ : List String) :
+    ∀ (fuel k j : Nat), k ≤ j → j < findFreeGlobal occ fuel k → ("V" ++ toString j) ∈ occ := by
+  intro fuel
+  induction fuel with
+  | zero => intro i j h1 h2; simp only [findFreeGlobal] at h2; omega
+  | succ n ih =>
+    intro i j h1 h2
+    simp only [findFreeGlobal] at h2
+    split at h2
+    · rename_i hm
+      by_cases hij : i = j
+      · subst hij; exact hm
+      · exact ih (i + 1) j (by omega) h2
+    · omega
+
+/-- fresh global variables (the fallback of `choose_fresh_global_variables`): stops at the first free index
+    from `k` on -/
+theorem fresh_global_search_terminates (occ : List String) (k : Nat) :
+    ("V" ++ toString (findFreeGlobal occ (occ.length + 1) k)) ∉ occ ∧
+    ∀ j, k ≤ j → j < findFreeGlobal occ (occ.length + 1) k → ("V" ++ toString j) ∈ occ :=
+  ⟨findFreeGlobal_spec occ _ k (exists_free_global occ k),
+   fun j h1 h2 => findFreeGlobal_first_free occ (occ.length + 1) k j h1 h2⟩
+
+/-- non-vacuity: with `q_p` and `q_p1` occupied the search for `q/1` passes two candidates and stops at `q_p2` -/
+example : findExt [⟨"q_p", 1⟩, ⟨"q_p1", 1⟩, ⟨"q_p", 2⟩] ⟨"q", 1⟩ 4 0 = 2 := by decide
 
 end Anthem.C16
